@@ -435,6 +435,62 @@ def hist_runs(cases):
                     x1[...] = -1.0
                     y1[...] = -1.0
                 extra["after_scribble"] = one(plan[0])[0]
+            elif c["what"] in ("proj_failure", "kdtree_failure"):
+                # inputs on which the engine fails for SOME rows only (so some, not all, workers fail while holding a slice):
+                # the multi-process call must behave like the single-process one - raise when it raises, return the same
+                # arrays (inf / nan included) when it returns - never return anything else
+                import warnings as _w
+
+                def outcome(fn):
+                    try:
+                        with _w.catch_warnings():
+                            _w.simplefilter("ignore")
+                            return ("ok", fn())
+                    except Exception as e:
+                        return ("raised", "%s: %s" % (type(e).__name__, str(e)[:120]))
+                n = c["n"]
+                bad_rows = [min(n - 1, max(0, int(round(q * (n - 1))))) for q in c["bad_at"]]
+                if c["what"] == "proj_failure":
+                    import pyproj
+                    from pyproj import CRS
+                    from pyresample._spatial_mp import Proj_MP
+                    from pyresample.utils.proj4 import get_geodetic_crs_with_no_datum_shift
+                    crs = CRS.from_user_input(c["proj"])
+                    tr = pyproj.Transformer.from_crs(get_geodetic_crs_with_no_datum_shift(crs), crs, always_xy=True)
+                    lons = rs.uniform(-5, 25, size=n)
+                    lats = rs.uniform(50, 70, size=n)
+                    for b in bad_rows:
+                        if c["bad"] == "lat95":
+                            lats[b] = 95.0
+                        elif c["bad"] == "nan_lon":
+                            lons[b] = np.nan           # NaN in only one of the two paired coordinate arrays
+                        else:
+                            lats[b] = np.inf
+                    single = outcome(lambda: tr.transform(lons, lats, errcheck=c["errcheck"]))
+                    multi = outcome(lambda: Proj_MP(c["proj"])(lons, lats, errcheck=c["errcheck"], nprocs=c["nprocs"],
+                                                               chunk=c["chunk"], schedule=c["kind"]))
+                else:
+                    import scipy.spatial as sp
+                    from pyresample._spatial_mp import cKDTree_MP
+                    data = rs.uniform(-1, 1, size=(c["ndata"], 3))
+                    x = rs.uniform(-1, 1, size=(n, 3))
+                    for b in bad_rows:
+                        x[b, b % 3] = np.nan if c["bad"] == "nan" else np.inf
+                    single = outcome(lambda: sp.cKDTree(data).query(x, k=c["k"]))
+                    multi = outcome(lambda: cKDTree_MP(data, nprocs=c["nprocs"], chunk=c["chunk"], schedule=c["kind"]).query(x, k=c["k"]))
+                if single[0] == "raised":
+                    good = multi[0] == "raised"
+                else:
+                    good = multi[0] == "ok" and all(np.asarray(a).shape == np.asarray(b).shape and
+                                                    np.array_equal(np.asarray(a, dtype=float), np.asarray(b, dtype=float), equal_nan=True)
+                                                    for a, b in zip(single[1], multi[1]))
+                calls.append(bool(good))
+                extra["single_process"] = single[0] if single[0] == "ok" else single[1]
+                if multi[0] == "ok":
+                    extra["multi_process"] = "returned arrays; entries equal to the initial 0: %s" % (
+                        [int((np.asarray(a) == 0).sum()) for a in multi[1]],)
+                else:
+                    extra["multi_process"] = multi[1]
             elif c["what"] == "proj_layout":
                 # the same logical coordinate arrays handed in with different memory layouts / dtypes: the result may
                 # depend on the VALUES at each index only
@@ -487,7 +543,7 @@ def hist_runs(cases):
                 calls.append(bool(np.array_equal(v1, v0) and np.array_equal(o1, o0) and i1.shape == i0.shape
                                   and np.array_equal(i1, i0) and np.allclose(d1, d0, rtol=1e-9, atol=1e-6)))
                 calls.append(bool(np.any(np.isfinite(d0))))     # the reference finds neighbours (non-trivial case)
-            r = {"ok": all(calls) and all(kept) and all(extra.values()), "calls": calls}
+            r = {"ok": all(calls) and all(kept) and all(v for v in extra.values() if isinstance(v, bool)), "calls": calls}
             if kept:
                 r["kept"] = kept
             r.update(extra)
